@@ -870,10 +870,40 @@ func (w *bWorld) submit(op *bOp) {
 		k.Count("probe:refused-at-intake")
 	}
 
-	// C11: an honest request must be accepted (unless the node legitimately refuses: deactivated DID, injected fault, closed window)
+	// C11: an honest request must be accepted unless the node has a reason the harness knows about: the DID
+	// does not exist (yet) or is deactivated in the node's view (stored + unpublished operations), or the
+	// request's window is not open on the server clock. (Injected queue/store faults answer 500, not 400.)
 	if op.Byz == "" && !op.Accepted && code == http.StatusBadRequest && !mustRefuse {
-		legit := strings.Contains(op.Err, "deactivated") || strings.Contains(op.Err, "expired") || strings.Contains(op.Err, "early") ||
-			strings.Contains(op.Err, "not found")
+		legit := false
+
+		if op.Type != operation.TypeCreate {
+			view := w.storedModelOps(d)
+
+			for _, e := range w.unpub.Ops[d.Suffix] {
+				if o := w.byKey[simenv.ReqKey(e.OperationRequest)]; o != nil && w.useUnpub {
+					m := *o.M
+					m.Time, m.Published = e.TransactionTime, false
+					view = append(view, &m)
+				}
+			}
+
+			st, err := refmodel.Resolve(view)
+			legit = err != nil || st.Deactivated
+		}
+
+		if op.M.From != 0 || op.M.Until != 0 {
+			now := int64(w.ledgerNow())
+			until := op.M.Until
+
+			if op.M.From != 0 && until == 0 {
+				until = op.M.From + op.M.MaxDelta
+			}
+
+			if now < op.M.From || now > until {
+				legit = true
+			}
+		}
+
 		if !legit {
 			w.fail("C11", "intake/honest-request-refused", fmt.Sprintf("client-built %s (key type %s, hash %d) refused: %s", op.Type, d.KeyType, d.Hash, op.Err))
 		}
